@@ -37,6 +37,21 @@ fn datasets() -> Vec<(&'static str, Vec<VDoc>)> {
                 vdoc("n1", 1, Some(5), &["y", "z"], "delta"),
             ],
         ),
+        (
+            "many",
+            // 24 documents; relevance (term frequency, closeness to the query vector)
+            // GROWS with the id, so the best hits have the largest ids and every
+            // search index alone already returns more candidates than a small page
+            (1..=24u64)
+                .map(|i| {
+                    let body = format!("{} gamma", "alpha ".repeat(1 + (i as usize) / 3));
+                    let tags: Vec<&str> = if i % 2 == 0 { vec!["even"] } else { vec![] };
+                    let mut d = vdoc(&format!("m{i:02}"), 100 - i, if i % 3 == 0 { Some(i % 5) } else { None }, &tags, &body);
+                    d.emb = fixture::emb_of(i, 0);
+                    d
+                })
+                .collect(),
+        ),
     ]
 }
 
@@ -54,6 +69,7 @@ fn build(name: &'static str, docs: Vec<VDoc>) -> Data {
             &db,
             Idx {
                 body: true,
+                emb: true,
                 ..Idx::BTREES
             },
         )
@@ -325,6 +341,12 @@ fn check_case(case: &Case, t: &mut Tally) {
 
 /// Search + filter: relevance-ordered candidates restricted to the match set.
 fn check_search(data: &Data, f: &Filter, t: &mut Tally) {
+    // exact comparison is only valid where the candidate lists cannot exceed
+    // limit*10 (documented candidate window); the 24-document dataset is checked
+    // by the window-independent laws of `check_hybrid` instead
+    if data.name == "many" {
+        return;
+    }
     let expect = match data.model.eval_filter(f) {
         Ok(s) => s,
         Err(_) => return,
@@ -372,6 +394,62 @@ fn check_search(data: &Data, f: &Filter, t: &mut Tally) {
     }
 }
 
+/// Hybrid (text + vector) search with a filter, on the dataset whose candidate
+/// lists exceed the page: (1) every id returned matches the filter; (2) the
+/// unfiltered answer for the same limit, restricted to the match set, is a
+/// prefix of the filtered answer (same candidates, same relevance order);
+/// (3) a filter that matches every document changes nothing.
+fn check_hybrid(data: &Data, f: &Filter, t: &mut Tally) {
+    let expect = match data.model.eval_filter(f) {
+        Ok(s) => s,
+        Err(_) => return,
+    };
+    let all = expect.len() == data.model.docs.len();
+    let searches = [
+        Search { text: Some("alpha".into()), vector: Some(vec![24.0, 1.0, 2.0, 3.0]), ..Default::default() },
+        Search { text: Some("alpha gamma".into()), vector: Some(vec![1.0, 1.0, 2.0, 3.0]), ..Default::default() },
+        Search { text: None, vector: Some(vec![24.0, 1.0, 2.0, 3.0]), ..Default::default() },
+        Search { text: Some("alpha".into()), ..Default::default() },
+    ];
+    for search in searches {
+        for limit in [Some(1usize), Some(2), Some(3), None] {
+            util::block_on(async {
+                t.evaluations += 1;
+                let unfiltered = data.coll.search_ids(Query { search: Some(search.clone()), filter: None, limit }).await;
+                let filtered = data.coll.search_ids(Query { search: Some(search.clone()), filter: Some(f.clone()), limit }).await;
+                let (Ok(u), Ok(g)) = (&unfiltered, &filtered) else {
+                    t.violations.push(Violation {
+                        signature: format!("C03|search_ids(hybrid+filter)|error|{}", shape(f)),
+                        summary: format!("dataset {} hybrid search {:?} filter {:?} limit {:?}: unfiltered {:?}, filtered {:?}", data.name, search.text, f, limit, unfiltered, filtered),
+                        replay: json!({"dataset": data.name, "filter": f, "entry": "search_ids(hybrid+filter)", "limit": limit}),
+                    });
+                    return;
+                };
+                let prefix: Vec<u64> = u.iter().copied().filter(|i| expect.contains(i)).collect();
+                let bad = if g.iter().any(|i| !expect.contains(i)) {
+                    Some("returned an id outside the filter's match set")
+                } else if !g.starts_with(&prefix) {
+                    Some("the unfiltered answer restricted to the match set is not a prefix of the filtered answer")
+                } else if all && g != u {
+                    Some("a filter that matches every document changed the answer")
+                } else {
+                    None
+                };
+                if let Some(why) = bad {
+                    t.violations.push(Violation {
+                        signature: format!("C03|search_ids(hybrid+filter)|{}", shape(f)),
+                        summary: format!(
+                            "dataset {} search text {:?} vector {:?} filter {:?} limit {:?}: {why}: filtered {:?}, unfiltered {:?}, match set {:?}",
+                            data.name, search.text, search.vector.as_ref().map(|v| v[0]), f, limit, g, u, expect
+                        ),
+                        replay: json!({"dataset": data.name, "filter": f, "entry": "search_ids(hybrid+filter)", "limit": limit}),
+                    });
+                }
+            });
+        }
+    }
+}
+
 fn main() {
     let mut run = Run::from_args("C03", "scope", "exploration");
     let sets: Vec<Data> = datasets().into_iter().map(|(n, d)| build(n, d)).collect();
@@ -384,6 +462,9 @@ fn main() {
         let mut t = Tally::default();
         check_case(&Case { data, filter: filter.clone() }, &mut t);
         check_search(data, &filter, &mut t);
+        if data.name == "many" {
+            check_hybrid(data, &filter, &mut t);
+        }
         for v in t.violations {
             run.violation(v);
         }
@@ -503,6 +584,9 @@ fn main() {
             if i % 7 == 0 {
                 check_search(c.data, &c.filter, &mut t);
             }
+            if c.data.name == "many" && i % 3 == 0 {
+                check_hybrid(c.data, &c.filter, &mut t);
+            }
         }
         t
     });
@@ -523,6 +607,6 @@ fn main() {
     run.rule(
         "all filter trees to depth 3 (range-level and filter-level And/Or/Not over Eq/Gt/Ge/Lt/Le/Between incl. inverted/Include incl. dup+empty) over _id and 4 B-tree indexes of 2 collections with key order de-correlated from id order, x limits {None,0..n+1,MAX+1} x {query_ids, query_last_ids, query_all_ids, search_ids}; depth 2/3 composites over a deterministic stride of representative operands; non-trivial = model result neither empty nor everything; distinct by (dataset, filter)",
     );
-    run.assume("collections of 5-6 live documents; constants from the boundary set of each index");
+    run.assume("collections of 5-6 live documents plus one of 24 whose search candidate lists exceed the page (hybrid text+vector search with a filter: subset, prefix and tautology laws); constants from the boundary set of each index");
     run.finish();
 }
